@@ -87,6 +87,11 @@ class Scen(CompScenario):
             "write.i.count": wcount,
             "read.i.count": rcount,
         }
+        # the count field can hold values above read_width when read_width + 1 is not a power of two: the
+        # statement bounds the result by read_width ("min(count, level, read_width)"), so such requests are legal
+        top = (1 << self.widths["read.i.count"]) - 1
+        if top > rw and rng.random() < 0.12:
+            stim["read.i.count"] = rng.randint(rw + 1, top)
         if self.mc:
             if need is None:  # an upper bound on count: tight half of the time
                 need = wcount if rng.random() < 0.5 else rng.randint(wcount, ww)
@@ -110,8 +115,9 @@ class Scen(CompScenario):
         if en["write"]:
             self.premise(wcount <= ww and wneed <= ww, f"write count {wcount}/{wneed} outside range({ww + 1})")
             self.premise(wcount <= wneed, f"write count {wcount} exceeds max_count {wneed}")
-        if en["read"]:
-            self.premise(rcount <= rw, f"read count {rcount} outside range({rw + 1})")
+        self.premise(rcount < (1 << self.widths["read.i.count"]), f"read count {rcount} does not fit the count field")
+        if en["read"] and rcount > rw:
+            self.hit("read_count_above_read_width")
         for p in PORTS:
             self.expect(not done[p] or en[p], "ran-without-request", f"{p} done without request", port=p)
         w, r, pk, c = done["write"], done["read"], done["peek"], done["clear"]
@@ -258,7 +264,7 @@ class Prop(PropBase):
             "in all data lanes; distinct = distinct (configuration, level, read position modulo depth, executed calls "
             "with their effective counts); non-trivial = a call executed with level < read_width, free < write_width, "
             "a row-end / row-crossing pointer step, or clear")
-    expected_cov = ["write_refused_no_space", "write_refused_at_full_though_read_frees_space",
+    expected_cov = ["read_count_above_read_width", "write_refused_no_space", "write_refused_at_full_though_read_frees_space",
                     "write_refused_one_more_than_fits", "write_refused_though_same_cycle_read_frees_enough",
                     "write_refused_by_max_count_though_count_fits", "write_just_fits", "became_full", "write_zero_count",
                     "write_count_below_max_count", "write_ends_exactly_at_row_end", "write_crosses_row_end",
